@@ -1062,12 +1062,16 @@ def run_c08(prop, tier):
     check.cov["unrenderable"] = dict(unrenderable)
     # (i) direct and (iii) merged after 1 / 2 other generated programs
     q = []
+    q_lines = {}
     for pi, (ci, form, direct, _) in enumerate(progs):
         o1 = progs[(pi * 7 + 3) % len(progs)][2]
         o2 = progs[(pi * 13 + 5) % len(progs)][2]
         q.append({"id": "d%d" % pi, "src": direct})
         q.append({"id": "m%d" % pi, "lines": [o1, direct]})
         q.append({"id": "n%d" % pi, "lines": [o2, o1, direct]})
+        q_lines["d%d" % pi] = [direct]
+        q_lines["m%d" % pi] = [o1, direct]
+        q_lines["n%d" % pi] = [o2, o1, direct]
     t0 = time.time()
     outs = {}
     crashes = []
@@ -1098,6 +1102,14 @@ def run_c08(prop, tier):
 
         def last(key):
             if key in died:
+                # the process died (stack overflow in is_compatible on a callable cycle: pinned under C09,
+                # relation:callable-cycle-diverges).  If an EARLIER line of the session is a program that dies
+                # on its own, this line is not to blame: not judged in that configuration.
+                if key[0] in "mn":
+                    n = len(progs)
+                    pre = [(pi * 7 + 3) % n] + ([(pi * 13 + 5) % n] if key[0] == "n" else [])
+                    if any("d%d" % x in died for x in pre):
+                        return {"t": "rejected", "m": "an earlier line of the session kills the process on its own"}
                 return {"t": "died"}
             o = outs.get(key, {"outcomes": [], "crashes": ["missing"]})
             if o.get("crashes"):
@@ -1107,6 +1119,11 @@ def run_c08(prop, tier):
         r["runs"].append({"cfg": "direct", "form": form, "acc": verdict_of(last("d%d" % pi))})
         r["runs"].append({"cfg": "merged1", "form": form, "acc": verdict_of(last("m%d" % pi))})
         r["runs"].append({"cfg": "merged2", "form": form, "acc": verdict_of(last("n%d" % pi))})
+        # what a merged run that ended otherwise than in Ok / No actually did (kept for the replay file)
+        for cfgname, key in (("direct", "d%d" % pi), ("merged1", "m%d" % pi), ("merged2", "n%d" % pi)):
+            if verdict_of(last(key)) == "err":
+                r.setdefault("err_detail", {})["%s/%s" % (cfgname, form)] = {
+                    "lines": q_lines.get(key), "raw": outs.get(key)}
         so = {"t": "died"} if pi in dead else (shaken_out[pi] or {}).get("out", {"t": "none"})
         r["runs"].append({"cfg": "shaken", "form": form, "acc": verdict_of(so)})
         sz = (shaken_out[pi] or {}).get("sizes") if pi not in dead else None
@@ -1155,6 +1172,7 @@ def run_c08(prop, tier):
         grouped[(m["rule"], m["form"])].append({"rule": m["rule"], "cfg": m["cfg"], "form": m["form"],
                                                 "observed": m["acc"], "program": r["progs"].get(m["form"]),
                                                 "runs": r["runs"], "value": r["v"],
+                                                "err_detail": r.get("err_detail", {}).get("%s/%s" % (m["cfg"], m["form"])),
                                                 "case": {"g": r["g"], "t": r["t"], "v": r["v"]}})
     check.cov["mismatches"] = {"%s/%s" % k: len(v) for k, v in grouped.items()}
     for (rule, form), items in sorted(grouped.items()):
